@@ -62,6 +62,7 @@ class Prop(BaseProp):
         r = _real_random.Random(derive(*labels, "case"))
         k = S.Knobs(r)
         k.p_placeholder = r.choice((0.0, 0.3, 0.6))
+        k.p_regex_narrow = 0.06 if k.p_regex else 0.0
         spec, w = S.gen(r, k)
         route = r.choice(("fake", "fake", "invert", "generator"))
         case = {"spec": spec, "witness": enc(w), "route": route,
